@@ -77,6 +77,10 @@ def main() -> int:
             print(f"KNOWN-FINDING: property={prop} {k['what']} [key={k['key']}]")
 
     rdir = os.path.join(core.VERIF, "replays", prop)
+    if os.path.isdir(rdir):   # numbered replay files belong to one run: drop those of earlier runs
+        for name in os.listdir(rdir):
+            if name[:-5].isdigit() and name.endswith(".json"):
+                os.remove(os.path.join(rdir, name))
     for n, (v, _) in enumerate(new[:20]):
         os.makedirs(rdir, exist_ok=True)
         path = os.path.join(rdir, f"{n}.json")
